@@ -36,6 +36,8 @@ def assemble(src, typ="hex", args=(), flavour="rel", files=None, extra_argv=(), 
         with open(p, "wb") as f:
             f.write(body if isinstance(body, bytes) else body.encode("latin-1"))
     outname = outname or OUTNAME[typ]
+    if "/" in outname:
+        os.makedirs(os.path.join(d, os.path.dirname(outname)), exist_ok=True)
     if stale is not None:
         with open(os.path.join(d, outname), "wb") as f:
             f.write(stale)
